@@ -28,7 +28,8 @@ cp $S/demo.rs $R/tests/seeded_demo.rs
 WITH=$(grep -E "^test result" $E/demo_with.txt | head -1)
 [ -z "$WITH" ] && WITH="(no result line: $(tail -2 $E/demo_with.txt | tr '\n' ' '))"
 # checks against the changed tree
-mkdir -p $E/verif && rsync -a --delete --exclude target --exclude 'target-*' --exclude work --exclude replays --exclude .git --exclude seeded /verif/ $E/verif/
+mkdir -p $E/verif && SRC=$(cat ${VERIF_SRC_FILE:-/scratch/VERIF_SRC} 2>/dev/null || echo /verif)  # a frozen snapshot while /verif is being edited
+rsync -a --delete --exclude target --exclude 'target-*' --exclude work --exclude replays --exclude .git --exclude seeded $SRC/ $E/verif/
 sed -i "s#path = \"/repo\"#path = \"$R\"#" $E/verif/sim/Cargo.toml
 
 rm -f $R/tests/seeded_demo.rs
